@@ -1,10 +1,11 @@
 /-
   C05 — `withBuiltins`: the schema description with the five built-in scalars listed (the form the bridge theorems and the
   evaluated `schema_checks` speak about) is READ IDENTICALLY by every accessor of the executor model: `kindOf`,
-  `fieldOf`, `possibleTypes`, `isPossibleType`, `rootType`. (The executor treats a missing built-in as a scalar:
+  `fieldOf`, `possibleTypes`, `isPossibleType`, `rootType`, `serializeLeaf` - every way `Exec.lean` reads the schema. (The executor treats a missing built-in as a scalar:
   `Exec.kindOf`.) So the executor-side schema checks have the same value on both descriptions.
 -/
 import PyGqlModel.Spec.SchemaChecks
+import PyGqlModel.Exec
 
 set_option linter.unusedSimpArgs false
 set_option linter.unusedVariables false
@@ -97,6 +98,27 @@ theorem isPossibleType_withBuiltins (s : SchemaD) (a o : String) : isPossibleTyp
 
 /-- … the same ROOT types -/
 theorem rootType_withBuiltins (s : SchemaD) (k : String) : rootType (withBuiltins s) k = rootType s k := rfl
+
+/-- … and SERIALISES every leaf identically: the five specified scalars are serialised by their own rules whether or not
+    the description lists them (`Exec.serializeLeaf` tests the five names first) -/
+theorem serializeLeaf_withBuiltins (s : SchemaD) (n : String) (j : J) : serializeLeaf (withBuiltins s) n j = serializeLeaf s n j := by
+  unfold serializeLeaf
+  by_cases h1 : n = "Int"
+  · simp [h1]
+  by_cases h2 : n = "Float"
+  · simp [h2]
+  by_cases h3 : n = "String"
+  · simp [h3]
+  by_cases h4 : n = "Boolean"
+  · simp [h4]
+  by_cases h5 : n = "ID"
+  · simp [h5]
+  have hb : n ∉ builtinScalars := by simp [builtinScalars, h1, h2, h3, h4, h5]
+  simp only [beq_iff_eq, h1, h2, h3, h4, h5, if_false]
+  rw [findType_withBuiltins]
+  cases h : s.findType n with
+  | some t => simp
+  | none => simp [hb]
 
 private theorem all_extra (s : SchemaD) (f : TypeD → Bool) (hf : ∀ t : TypeD, t.fields = [] → f t = true) :
     (withBuiltins s).types.all f = s.types.all f := by
